@@ -14,6 +14,7 @@ import concurrent.futures
 import json
 import os
 import random
+import re
 import subprocess
 from typing import Any
 
@@ -185,6 +186,11 @@ def gen_workload(rnd: random.Random, n: int) -> list[dict[str, Any]]:
     cons = [vc_common.gen_constraint(rnd) for _ in range(40)]
     cons += [rnd.choice(cons).replace(",", ", ").replace("||", " || ") for _ in range(8)]
     cons += ["*", ">=1.0,,<2", "=>1", "1.0.0.0.*"]
+    # the same constraint written with another release precision (1.0 == 1.0.0 for Version.__eq__/__hash__, not for the text):
+    # what a memo keyed by version equality confuses
+    cons += [re.sub(r"(?<![\d.!])(\d+\.\d+)(?![\d.*])", r"\1.0", c, count=1) for c in rnd.sample(cons[:40], 10)]
+    cons += ["==1.0.post1.*", "==1.0.0.post1.*", "!=1.post1.*", "!=1.0.post1.*", "1.0", "1.0.0", "<2.0", "<2.0.0", "^1", "^1.0.0",
+             "==2.*", "==2.0.*", ">=1.0.post1.dev0,<1.0.post2.dev0", ">=1.0.0.post1.dev0,<1.0.0.post2.dev0"]
     vers = [vc_common.gen_ver(rnd) for _ in range(20)] + ["1.0RC1", "v1.2", "1..2", ""]
     gens = [gen_generic(rnd, False) for _ in range(12)]
     xgens = [gen_generic(rnd, True) for _ in range(10)]
